@@ -113,6 +113,9 @@ Assign(h, rs, cs, val) ==
         /\ bufs' = m[1] /\ view' = m[2]                          \* the target was materialised before the refusal
         /\ last' = <<"obs", out, out>>
 
+\* ra.fill(v): every cell of the target (and of its aliases) becomes v; at level M the target is materialised and its buffer overwritten
+Fill(h, v) == Assign(h, <<"all">>, <<"none">>, <<"scalar", v>>)
+
 \* element-wise ufunc of handle h with `other` (<<"h", g>> | <<"py", pk, v>> | <<"none">>), operands in the given order
 OperandOf(o) == IF Tag(o) = "h" THEN <<"ra", heap[o[2]]>> ELSE o
 MOperandOf(o) == IF Tag(o) = "h" THEN <<"ra", MArr(o[2])>> ELSE o
@@ -138,8 +141,8 @@ FuncStep(name, h, arg) ==
 
 \* read-only operations.  Printing, iterating, the flat view, reductions, every array function and ufunc executed for its
 \* result only (the result is discarded): they materialise the array they look at.  "str" (prints a temporary selection),
-\* "len" "shape" "size" "dtype" "lengths" "copy" do not touch it at all.
-NonTouching == {"str", "len", "shape", "size", "dtype", "lengths", "copy"}
+\* "len" "shape" "size" "dtype" "lengths" "copy", and the selections "colvalues" (ra[mask, j]) and "rowcol" (ra[:, 0:1]) do not.
+NonTouching == {"str", "len", "shape", "size", "dtype", "lengths", "copy", "colvalues", "rowcol"}
 ReadMaterialises(kind) == kind \notin NonTouching
 Read(h, kind) ==
   LET m == IF ReadMaterialises(kind) THEN MatIn(bufs, view, h) ELSE <<bufs, view>> IN
@@ -152,13 +155,14 @@ Step(st) ==
   CASE st[1] = "new" -> New(st[2])
     [] st[1] = "select" -> Select(st[2], st[3], st[4])
     [] st[1] = "assign" -> Assign(st[2], st[3], st[4], st[5])
+    [] st[1] = "fill" -> Fill(st[2], st[3])
     [] st[1] = "ufunc" -> UfuncStep(st[2], st[3], st[4])
     [] st[1] = "func" -> FuncStep(st[2], st[3], st[4])
     [] st[1] = "read" -> Read(st[2], st[3])
     [] OTHER -> FALSE
 \* a step is well-formed when its handles exist (drivers and alphabets only produce such steps)
 HandlesOf(st) ==
-  CASE st[1] \in {"select", "assign", "read"} -> {st[2]}
+  CASE st[1] \in {"select", "assign", "read", "fill"} -> {st[2]}
     [] st[1] = "ufunc" -> {o[2] : o \in {x \in {st[3], st[4]} : Tag(x) = "h"}}
     [] st[1] = "func" -> IF st[2] = "concat" THEN {st[3], st[4][1]} ELSE {st[3]}
     [] OTHER -> {}
